@@ -447,6 +447,13 @@ fn c09_case(seed: u64, idx: u64, md: &mut Model, rep: &mut Report) {
             if mv != format!("ok {}", pr(&im)) { disag.push(json!({"kind": "idmap decode", "model": m, "impl": pr(&im), "bytes": hex(&b1)})); }
             let m2 = md.ask(&format!("DEC reenc_idmap {}", hex(&b1)));
             if m2 != format!("ok {}", hex(&b1)) { disag.push(json!({"kind": "idmap encode", "model": m2, "impl": hex(&b1)})); }
+            // the lib0 v2 form through the model's v2 codec (Codec/IdMapV2.v)
+            let m = md.ask(&format!("DEC idmap2 {}", hex(&b2)));
+            let (mv, _) = model_reply_value(&m);
+            if mv != format!("ok {}", pr(&im)) { disag.push(json!({"kind": "idmap decode (v2)", "model": m, "impl": pr(&im), "bytes": hex(&b2)})); }
+            let m2 = md.ask(&format!("DEC reenc_idmap2 {}", hex(&b2)));
+            if m2 != format!("ok {}", hex(&b2)) { disag.push(json!({"kind": "idmap encode (v2)", "model": m2, "impl": hex(&b2)})); }
+            rep.count("attributed_id_maps_v2_compared_with_the_model");
         }
         rep.count("attributed_id_maps");
     }
@@ -695,7 +702,7 @@ fn seeds(seed: u64, idx: u64) -> Seeds {
         ("snapshot_v2", idsets.iter().zip(svs.iter()).map(|(d, s)| Snapshot::new(s.clone(), d.clone()).encode_v2()).collect(), "snapshot2"),
         ("idset_v1", idsets.iter().map(|x| x.encode_v1()).collect(), "idset"), ("idset_v2", idsets.iter().map(|x| x.encode_v2()).collect(), "idset2"),
         ("idmap_v1", idsets.iter().enumerate().map(|(i, x)| { let mut m = yrs::IdMap::<String>::from_set(x.clone(), vec![yrs::ContentAttribute::new("author", "me".to_string())]); if i % 2 == 1 { m.insert(yrs::block::BlockRange::new(ID::new(ClientID::new(7), 3), 9), vec![yrs::ContentAttribute::new("author", "you".to_string()), yrs::ContentAttribute::new("kind", "me".to_string())]); } m.encode_v1() }).collect(), "idmap"),
-        ("idmap_v2", idsets.iter().map(|x| yrs::IdMap::<String>::from_set(x.clone(), vec![yrs::ContentAttribute::new("author", "me".to_string())]).encode_v2()).collect(), ""),
+        ("idmap_v2", idsets.iter().map(|x| yrs::IdMap::<String>::from_set(x.clone(), vec![yrs::ContentAttribute::new("author", "me".to_string())]).encode_v2()).collect(), "idmap2"),
         ("any", anys, "any"),
         ("sticky_v1", stickies.iter().map(|x| x.encode_v1()).collect(), "sticky"), ("sticky_v2", stickies.iter().map(|x| x.encode_v2()).collect(), "sticky2"),
         ("awareness", aws.iter().map(|x| x.encode_v1()).collect(), "awareness"),
